@@ -7,7 +7,7 @@ WT=$1; DEMO=$2; DST=$3; shift 3
 cd "$WT" || exit 2
 git apply --check -R _seed/patch.diff 2>/dev/null || { git checkout -- . ; git apply _seed/patch.diff || { echo "CONFIRM patch does not apply"; exit 2; }; }
 go build ./... || { echo "CONFIRM build=FAIL"; exit 1; }
-PKGS=$(go list ./... | grep -v '/spi' | grep -v '/_seed')
+PKGS=$(go list ./... | grep -v '/spi' | grep -v '/_seed' | grep -v 'net/httpx$')
 go test -count=1 -vet=off $PKGS > _seed/suite.log 2>&1; SUITE=$?
 cp "$DEMO" "$DST/zz_seed_demo_test.go"
 go test -count=1 -vet=off "$@" > _seed/demo_with.log 2>&1; WITH=$?
